@@ -359,6 +359,8 @@ def mm_expr(c, expected, batched):
 def check_case(ctx, c, report=True):
     """Run the real code and the dense reference; returns the data needed for the model tie."""
     exact = c.get("mode") != "true"
+    if c["kind"] == "fprec":
+        return check_fprec(ctx, c, report)
     if c["kind"] == "ham":
         out, e = impl_ham(c)
         ref = [complex(x) for x in ref_ham(c, e)]
@@ -391,6 +393,143 @@ def check_case(ctx, c, report=True):
     if not ok and report:
         ctx.violation("matmul_2x2_with_batched differs from torch matmul", {"case": c, "finding_key": "matmul-2x2"})
     return ok, (a, b)
+
+
+# ------------------------------------------------------------------------------------------------
+# precision stream: GENERIC (non-dyadic) float64 / complex128 inputs over several decades; every returned tensor
+# must be complex128 (float64 for expect) and agree with the numpy complex128 dense reference to PREC_TOL relative to
+# the magnitude of the data entering each entry (|H| |v| etc.).  float64 rounding here is <= ~1e-14; a pass through
+# float32 / complex64 is ~6e-8.
+PREC_TOL = 1e-12
+
+
+def _fl(rng, lo=-2.0, hi=1.0):
+    if rng.random() < 0.4:
+        return rng.choice([0.1, 0.3, 1 / 3, 0.7, 1.1, 2.9, 0.6, 0.8]) * rng.choice([1, -1])
+    return rng.choice([1, -1]) * 10 ** rng.uniform(lo, hi)
+
+
+def gen_fprec_case(rng, N, real_path):
+    D = 2 ** N
+    U = [[0.0] * N for _ in range(N)]
+    for i in range(N):
+        for j in range(i + 1, N):
+            U[i][j] = U[j][i] = abs(_fl(rng, -1, 1.5))
+    Ls = [[[[_fl(rng, -1.5, 0.3), _fl(rng, -1.5, 0.3)] for _ in range(2)] for _ in range(2)]
+          for _ in range(rng.randint(0, 3))]
+    A = [[[_fl(rng), _fl(rng)] for _ in range(D)] for _ in range(D)] if N <= 5 else None
+    rho = None if A is None else [[[A[r][c][0] + A[c][r][0], A[r][c][1] - A[c][r][1]] for c in range(D)] for r in range(D)]
+    d0, d2 = rng.choice([1, 2, 3, 4]), rng.choice([1, 2, 3, 5])
+    return {"kind": "fprec", "N": N, "real_path": real_path,
+            "omega": [_fl(rng, -1, 1.3) for _ in range(N)], "delta": [_fl(rng, -1, 1.5) for _ in range(N)],
+            "phis": [0.0] * N if real_path else [rng.uniform(-7, 7) for _ in range(N)], "U": U, "Ls": Ls,
+            "vec": [[_fl(rng), _fl(rng)] for _ in range(D)], "rho": rho,
+            "mm": {"d0": d0, "d2": d2, "op": [[[_fl(rng), _fl(rng)] for _ in range(2)] for _ in range(2)],
+                   "x": [[_fl(rng), _fl(rng)] for _ in range(d0 * 2 * d2)]}}
+
+
+def impl_fprec(c):
+    import torch
+    import emu_sv.hamiltonian as hm
+    import emu_sv.lindblad_operator as lo
+    from emu_sv.state_vector import StateVector
+    from emu_sv.density_matrix_state import DensityMatrix
+    from emu_base.math.matmul import matmul_2x2_with_batched
+    from emu_base import compute_noise_from_lindbladians
+    om, de, ph, U = _tensors(c)
+    out = {}
+
+    def rec(name, t):
+        out[name] = ([complex(x) for x in t.reshape(-1).tolist()], str(t.dtype))
+
+    vec = torch.tensor([cplx(p) for p in c["vec"]], dtype=torch.complex128)
+    h = hm.RydbergHamiltonian(omegas=om, deltas=de, phis=ph, interaction_matrix=U, device="cpu")
+    rec("H*v", h * vec)
+    rec("H.expect", h.expect(StateVector(vec, gpu=False)))
+    if c["rho"] is not None:
+        Ls = [torch.tensor([[cplx(x) for x in r] for r in m], dtype=torch.complex128) for m in c["Ls"]]
+        rho = torch.tensor([[cplx(x) for x in r] for r in c["rho"]], dtype=torch.complex128)
+        lind = lo.RydbergLindbladian(omegas=om, deltas=de, phis=ph, pulser_lindblads=Ls, interaction_matrix=U,
+                                     device="cpu")
+        rec("L@rho", lind @ rho)
+        S = compute_noise_from_lindbladians(Ls)
+        rec("compute_noise", S)
+        rec("h_eff", lind.h_eff(rho, S))
+        rec("L.expect", lind.expect(DensityMatrix(rho, gpu=False)))
+    m = c["mm"]
+    op = torch.tensor([[cplx(x) for x in r] for r in m["op"]], dtype=torch.complex128)
+    x = torch.tensor([cplx(p) for p in m["x"]], dtype=torch.complex128).view(m["d0"], 2, m["d2"])
+    rec("matmul_2x2", matmul_2x2_with_batched(op, x))
+    return out
+
+
+def ref_fprec(c):
+    """name -> (reference array, magnitude scale of the data entering it)"""
+    import numpy as np
+    N = c["N"]
+    sx = np.array([[0, 1], [1, 0]], dtype=complex)
+    sy = np.array([[0, -1j], [1j, 0]], dtype=complex)
+    n = np.array([[0, 0], [0, 1]], dtype=complex)
+
+    def hq(q):
+        return (c["omega"][q] / 2.0) * (math.cos(c["phis"][q]) * sx + math.sin(c["phis"][q]) * sy) - c["delta"][q] * n
+
+    H = dense_H(c, hq)
+    Habs = dense_H(dict(c, U=[[abs(x) for x in r] for r in c["U"]]), lambda q: np.abs(hq(q)))
+    v = np.array([cplx(p) for p in c["vec"]], dtype=complex)
+    out = {"H*v": (H @ v, np.max(Habs @ np.abs(v))),
+           "H.expect": (np.array([np.vdot(v, H @ v).real]), float(np.abs(v) @ (Habs @ np.abs(v))))}
+    if c["rho"] is not None:
+        Ls = [np.array([[cplx(x) for x in r] for r in m], dtype=complex) for m in c["Ls"]]
+        rho = np.array([[cplx(x) for x in r] for r in c["rho"]], dtype=complex)
+        ar = np.abs(rho)
+        S = -0.5j * sum((L.conj().T @ L for L in Ls), np.zeros((2, 2), dtype=complex))
+        Sabs = 0.5 * sum((np.abs(L).T @ np.abs(L) for L in Ls), np.zeros((2, 2)))
+        Heff, Heffabs = H.copy(), Habs.copy()
+        jump, jumpabs = np.zeros_like(H), np.zeros_like(Habs)
+        for q in range(N):
+            Heff = Heff + _site(np, S, q, N)
+            Heffabs = Heffabs + _site(np, Sabs, q, N)
+            for L in Ls:
+                Lq = _site(np, L, q, N)
+                jump = jump + Lq @ rho @ Lq.conj().T
+                jumpabs = jumpabs + np.abs(Lq) @ ar @ np.abs(Lq).T
+        out["L@rho"] = (Heff @ rho - rho @ Heff.conj().T + 1j * jump,
+                        np.max(Heffabs @ ar + ar @ Heffabs.T + jumpabs))
+        out["compute_noise"] = (S, max(1e-300, float(np.max(Sabs))))
+        out["h_eff"] = (Heff @ rho, np.max(Heffabs @ ar))
+        out["L.expect"] = (np.array([np.trace(H @ rho).real]), float(np.trace(Habs @ ar)))
+    m = c["mm"]
+    op = np.array([[cplx(x) for x in r] for r in m["op"]], dtype=complex)
+    x = np.array([cplx(p) for p in m["x"]], dtype=complex).reshape(m["d0"], 2, m["d2"])
+    out["matmul_2x2"] = (op @ x, np.max(np.abs(op) @ np.abs(x)))
+    return out
+
+
+def check_fprec(ctx, c, report=True):
+    import numpy as np
+    r = impl_fprec(c)
+    ok = True
+    for name, (want, scale) in ref_fprec(c).items():
+        got, dt = r[name]
+        got = np.array(got, dtype=complex)
+        want = np.asarray(want, dtype=complex).reshape(-1)
+        tol = PREC_TOL * max(float(scale), 1e-300)
+        err = float(np.max(np.abs(got - want))) if got.shape == want.shape else float("inf")
+        if not (err <= tol):
+            ok = False
+            if report:
+                ctx.violation(f"{name}: deviates from the complex128 dense reference by {err:.3e} (allowed {tol:.1e}) on "
+                              f"generic float inputs, N={c['N']}, {'phi=0 path' if c['real_path'] else 'complex path'}",
+                              {"case": c, "finding_key": "operator-lost-precision", "where": name, "max_abs_error": err})
+        want_dt = "torch.float64" if name.endswith(".expect") else "torch.complex128"
+        if dt != want_dt:
+            ok = False
+            if report:
+                ctx.violation(f"{name}: returned dtype {dt} instead of {want_dt}",
+                              {"case": c, "finding_key": "operator-dtype", "where": name})
+    return ok, None
+
 
 
 def corpus_cases():
@@ -428,6 +567,10 @@ def run(ctx):
             cases.append(dict(gen_lind_case(rng, N, mode, nj=rng.randint(0, 6 if N < 7 else 3)), tie=False))
     for _ in range(ctx.n(30, 300)):
         cases.append(gen_mm_case(rng))
+    # --- precision / dtype stream (generic floats, oracle only: float rounding is outside the model)
+    for N in range(1, (8 if th else 6) + 1):
+        for i in range(ctx.n(2, 10) if N <= 5 else ctx.n(1, 3)):
+            cases.append(gen_fprec_case(rng, N, real_path=(i % 2 == 0)))
 
     ev = common.CoqEval("C06", HEADER)
     pending = []  # (case, how, expr index, data)
@@ -436,9 +579,9 @@ def run(ctx):
         ok, data = check_case(ctx, c)
         key = f"{c['kind']}/N={c.get('N', '-')}/{c.get('mode', '-')}"
         hist[key] = hist.get(key, 0) + 1
-        nontrivial = c["kind"] == "matmul" or (c["N"] >= 2 and any(c["omega"]) and (c["kind"] == "ham" or c["Ls"]))
-        ctx.count_case({k: c[k] for k in c if k not in ("vec", "rho")} | {"oracle_ok": ok}, nontrivial)
-        if not model_ok:
+        nontrivial = c["kind"] == "matmul" or (c["N"] >= 2 and any(c["omega"]) and (c["kind"] in ("ham", "fprec") or c["Ls"]))
+        ctx.count_case({k: c[k] for k in c if k not in ("vec", "rho", "mm")} | {"oracle_ok": ok}, nontrivial)
+        if not model_ok or c["kind"] == "fprec":
             continue
         exact = c.get("mode") != "true"
         if c["kind"] == "ham":
@@ -489,7 +632,9 @@ def run(ctx):
                          "select / index_add_ / in-place +=), validated by the exact correspondence on every run",
                          "float64 + - * on small integers and half-integers is exact (so torch == dyadic model)",
                          "numpy kron/matmul for the independent dense reference of the falsifier"]
-    ctx.assumptions += ["CPU tensors; the GPU branch (matmul_2x2_with_batched) is covered by the theorem "
+    ctx.assumptions += [f"precision stream: generic float inputs, tolerance {PREC_TOL} relative to |H||v| (resp. the "
+                        "analogous magnitude bound); float64 rounding there is <= ~1e-14, float32 is ~6e-8",
+                        "CPU tensors; the GPU branch (matmul_2x2_with_batched) is covered by the theorem "
                         "C06_matmul_2x2_batched_spec, by its own exact tie, and by the model's cpu=false path",
                         "genuine phases: rounding of torch.exp/cos/sin and of float products is outside the theorems "
                         "(compared with tolerance 1e-9 relative to the data scale)",
